@@ -82,7 +82,7 @@ Qed.
 
 (* ---------- Subject.countTokenWildcards ---------- *)
 Definition cntbody (_ : Z) (t : string) (cnt : Z) : ctl Z Z :=
-  if (t =? "*")%string then Cont (cnt + 1)%Z else Cont cnt.
+  Cont (if (t =? "*")%string then (cnt + 1)%Z else cnt).
 Lemma cntloop : forall (l : list string) (i cnt : Z),
   go_range (R:=Z) cntbody i l cnt = inl (cnt + Z.of_nat (length (filter (fun t => (t =? "*")%string) l)))%Z.
 Proof.
